@@ -9,7 +9,7 @@ import numpy as np
 import sympy as sp
 
 from . import sym
-from .interp import SymObj, PyExc, Undecided
+from .interp import SymObj, PyExc, Undecided, Opaque
 from .builtins_model import as_array, norm
 from .sym import Eq, And, Or, Implies, Le, Ge, Gt
 
@@ -94,3 +94,47 @@ EXTERNALS = {
     "scipy.optimize.minimize_scalar": minimize_scalar,
     "scipy.optimize.root": root,
 }
+
+
+ASSUMED["solve_ivp"] = ("scipy.integrate.solve_ivp: returns sample points t (last one the end of the integration) and the state y "
+                        "there; with a terminal event the event function vanishes at the last point if the event fired (not assumed to fire); "
+                        "accuracy of the integration is NOT assumed")
+ASSUMED["simpson"] = "scipy.integrate.simpson(y, x): an uninterpreted linear functional of the samples; accuracy is NOT assumed"
+
+N_SAMPLES = 2     # generic sample points of an ODE solution (elementwise code is checked on each)
+
+
+def solve_ivp(it, args, kwargs):
+    it.assumed.append(ASSUMED["solve_ivp"])
+    fun, span, y0 = args[0], args[1], args[2]
+    y0 = list(it.iterate(y0))
+    k = sum(1 for e in it.events if e.get("kind") == "solve_ivp")
+    ts = [it.fresh_real(f"ivp{k}_t{j}") for j in range(N_SAMPLES)]
+    ys = [[it.fresh_real(f"ivp{k}_y{i}_{j}") for j in range(N_SAMPLES)] for i in range(len(y0))]
+    extra = _extra(args, kwargs)
+    # the right-hand side the integrator is given, evaluated at a generic state
+    gv = it.fresh_real(f"ivp{k}_v")
+    gy = [it.fresh_real(f"ivp{k}_s{i}") for i in range(len(y0))]
+    # (an exception raised by the right-hand side propagates out of the integrator, as in scipy)
+    rhs = it.call(fun, [gv, as_array(gy)] + extra, {})
+    ev = dict(kind="solve_ivp", site=it.callstack[-1] if it.callstack else "", fun=fun, span=list(it.iterate(span)), y0=y0,
+              events=kwargs.get("events"), rtol=kwargs.get("rtol"), atol=kwargs.get("atol"), args=extra,
+              t=ts, y=ys, generic_v=gv, generic_y=gy, rhs=rhs)
+    it.events.append(ev)
+    return SymObj(None, None, attrs={"t": as_array(ts), "y": as_array(ys), "success": it.fresh_bool("ivp_success"),
+                                     "status": it.fresh_int("ivp_status"), "message": "<message>",
+                                     "t_events": Opaque("t_events") if False else None}, label="OdeResult")
+
+
+def simpson(it, args, kwargs):
+    it.assumed.append(ASSUMED["simpson"])
+    y = kwargs.get("y", args[0] if args else None)
+    x = kwargs.get("x", args[1] if len(args) > 1 else None)
+    k = sum(1 for e in it.events if e.get("kind") == "simpson")
+    r = it.fresh_real(f"simpson{k}")
+    it.events.append(dict(kind="simpson", site=it.callstack[-1] if it.callstack else "", y=as_array(y), x=as_array(x), result=r))
+    return r
+
+
+EXTERNALS["scipy.integrate.solve_ivp"] = solve_ivp
+EXTERNALS["scipy.integrate.simpson"] = simpson
